@@ -150,8 +150,12 @@ func runDedupSchedule(rng *rand.Rand, ids []int) (events []string, results []int
 				return false
 			}
 		}
-		sort.SliceStable(arrs, func(i, j int) bool {
-			return arrs[i].site == "dedup.get.marked" && arrs[j].site != "dedup.get.marked"
+		sort.SliceStable(arrs, func(i, j int) bool { // the woken followers by number, so that a seed gives one record
+			mi, mj := arrs[i].site == "dedup.get.marked", arrs[j].site == "dedup.get.marked"
+			if mi != mj {
+				return mi
+			}
+			return arrs[i].t < arrs[j].t
 		})
 		for _, a := range arrs {
 			if a.site == "finished" {
@@ -459,6 +463,11 @@ func runC12(cfg Config) {
 			st.gated = first
 			res := make(chan string, 2)
 			call := func(kind string) {
+				defer func() { // a request handed the result of the other kind (a *Chunk where a bool is expected) panics
+					if r := recover(); r != nil {
+						res <- kind + ":panic"
+					}
+				}()
 				if kind == "get" {
 					c, err := q.GetChunk(id)
 					res <- "get:" + getStr(c, err, data)
